@@ -46,7 +46,7 @@ def _msg_class(msg):
     return re.sub(r'\s+', ' ', msg)[:60]
 
 
-def parse_one(text, mode):
+def parse_one(text, mode, import_root=None):
     """-> (status, payload)
     'ok'        payload = list of rules (with HeritageAwareString objects)
     'reject'    payload = diagnostic class (a ParsingException)
@@ -54,16 +54,24 @@ def parse_one(text, mode):
                 rejection for C06 and is tallied separately)"""
     parse = setup()
     os.environ['LOGICA_PARSER'] = mode
+
+    def _cls(msg):
+        # diagnostics about imports quote the (temporary) import root
+        if import_root:
+            msg = msg.replace(import_root + '/', '<root>/').replace(import_root, '<root>')
+        return _msg_class(msg)
     try:
+        if import_root is not None:
+            return 'ok', parse.ParseFile(text, import_root=import_root)['rule']
         return 'ok', parse.ParseFile(text)['rule']
     except parse.ParsingException as e:
         if mode == 'CPP':
             t = getattr(e, '_formatted_error_text', '') or ''
             if t.startswith('Error: '):
-                return 'internal', 'cpp:' + _msg_class(t)
+                return 'internal', 'cpp:' + _cls(t)
             m = re.search(r'\[ [^\]]*Error[^\]]*\] (.*)', _ANSI.sub('', t), re.S)
-            return 'reject', _msg_class(m.group(1) if m else t)
-        return 'reject', _msg_class(str(e))
+            return 'reject', _cls(m.group(1) if m else t)
+        return 'reject', _cls(str(e))
     except (KeyboardInterrupt, SystemExit, MemoryError):
         raise
     except Exception as e:  # pylint: disable=broad-exception-caught
@@ -76,8 +84,9 @@ def parse_one(text, mode):
             parse.TOO_MUCH = _state['too_much']
 
 
-def parse_both(text):
-    return {'PY': parse_one(text, 'PY'), 'CPP': parse_one(text, 'CPP')}
+def parse_both(text, import_root=None):
+    return {'PY': parse_one(text, 'PY', import_root),
+            'CPP': parse_one(text, 'CPP', import_root)}
 
 
 def plain(n):
@@ -161,4 +170,47 @@ def the_strings(n, out):
     elif isinstance(n, list):
         for v in n:
             the_strings(v, out)
+    return out
+
+
+def resolve(tree, path):
+    """the nodes along '/a/0/b': [tree, tree[a], tree[a][0], ...]."""
+    out = [tree]
+    n = tree
+    for part in [q for q in path.split('/') if q]:
+        if isinstance(n, list):
+            n = n[int(part)]
+        else:
+            n = n[part]
+        out.append(n)
+    return out
+
+
+def is_array_operand(tree, path):
+    """True when the HeritageAwareString at `path` is the expression_heritage of the
+    array operand of `a[i]`, i.e. of the first argument of an Element call
+    (.../call/record/field_value/0/value/expression/expression_heritage) or of the call
+    below a subscript etc.: what ParseArraySub parses from the text before '['."""
+    parts = [q for q in path.split('/') if q]
+    if len(parts) < 6 or parts[-5:] != ['field_value', '0', 'value', 'expression',
+                                        'expression_heritage']:
+        return False
+    nodes = resolve(tree, path)
+    call = nodes[-7]        # the dict holding 'record' -> 'field_value' -> [0] ...
+    return isinstance(call, dict) and call.get('predicate_name') == 'Element' and \
+        parts[-6] == 'record'
+
+
+def span_pairs(a, b, out, path=''):
+    """(path, ha, hb) for every position where both trees have a HeritageAwareString."""
+    has = _state['HAS']
+    if isinstance(a, dict) and isinstance(b, dict):
+        for k in a:
+            if k in b:
+                span_pairs(a[k], b[k], out, path + '/' + str(k))
+    elif isinstance(a, list) and isinstance(b, list):
+        for i, (x, y) in enumerate(zip(a, b)):
+            span_pairs(x, y, out, path + '/%d' % i)
+    elif isinstance(a, has) and isinstance(b, has):
+        out.append((path, a, b))
     return out
